@@ -108,7 +108,11 @@ impl OperationControl for Repeat {
             // because each of these subclasses overrides matches_iter anyway,
             // so this code can never be reached.
             let mut stack_bound = bound;
-            if self.min == 0 && !matcher.is_duplicate_zero_length_match(self, position) {
+            let mut zero_length_match = None;
+            if self.min == 0 {
+                zero_length_match = ZeroLengthMatch::enter(matcher, self, position);
+            }
+            if zero_length_match.is_some() {
                 // add a match at the current position if zero occurrences are allowed
                 iterators.push(Box::new(std::iter::once(position)));
                 positions.push(p);
@@ -124,6 +128,7 @@ impl OperationControl for Repeat {
                 stack_bound,
                 self.min,
                 position,
+                zero_length_match,
             );
             iterator.extend(p);
             if iterator.iterators.is_empty() {
@@ -177,6 +182,45 @@ impl RepeatOperation for Repeat {
     }
 }
 
+// The record that a repeat has offered zero iterations at a position. While
+// the repeat is still being matched there, coming to the same repeat again at
+// the same position means that nothing was consumed in between, and zero
+// iterations are not offered again. The record ends with the iterator that
+// made it: a later attempt that reaches the same position along another path
+// is not a duplicate.
+struct ZeroLengthMatch<'a> {
+    matcher: &'a ReMatcher<'a>,
+    repeat: &'a Repeat,
+    position: usize,
+    backrefs: Vec<Option<usize>>,
+}
+
+impl<'a> ZeroLengthMatch<'a> {
+    fn enter(matcher: &'a ReMatcher<'a>, repeat: &'a Repeat, position: usize) -> Option<Self> {
+        let backrefs = matcher.backrefs();
+        if matcher.is_duplicate_zero_length_match(repeat, position, backrefs.clone()) {
+            None
+        } else {
+            Some(Self {
+                matcher,
+                repeat,
+                position,
+                backrefs,
+            })
+        }
+    }
+}
+
+impl Drop for ZeroLengthMatch<'_> {
+    fn drop(&mut self) {
+        self.matcher.forget_zero_length_match(
+            self.repeat,
+            self.position,
+            std::mem::take(&mut self.backrefs),
+        );
+    }
+}
+
 struct GreedyRepeatIterator<'a> {
     primed: bool,
     matcher: &'a crate::re_matcher::ReMatcher<'a>,
@@ -193,6 +237,8 @@ struct GreedyRepeatIterator<'a> {
     filled: Option<usize>,
     // whether iterations that consume something have been tried behind it
     filled_extended: bool,
+    // held for as long as this iterator can still produce matches
+    zero_length_match: Option<ZeroLengthMatch<'a>>,
 }
 
 impl<'a> GreedyRepeatIterator<'a> {
@@ -204,6 +250,7 @@ impl<'a> GreedyRepeatIterator<'a> {
         bound: usize,
         min: usize,
         start: usize,
+        zero_length_match: Option<ZeroLengthMatch<'a>>,
     ) -> Self {
         Self {
             primed: true,
@@ -216,6 +263,7 @@ impl<'a> GreedyRepeatIterator<'a> {
             start,
             filled: None,
             filled_extended: false,
+            zero_length_match,
         }
     }
 
@@ -314,6 +362,7 @@ impl Iterator for GreedyRepeatIterator<'_> {
             self.primed = false;
             self.positions.last().copied()
         } else {
+            self.zero_length_match = None;
             None
         }
     }
